@@ -81,8 +81,8 @@ let fuel = nat_of_int 60000
 
 (* the flag of Model/Reader.v that is parser.go as it is now *)
 let code = true
-(* cfix: false = parser.go as it is (finding curly-comment-drop) *)
-let cfix = false
+(* cfix: true = parser.go as it is now (the '{' comments '}' case pops the comments and the brace) *)
+let cfix = true
 
 let parse_cuts (s : string) : int list =
   if s = "-" || s = "" then [] else List.map int_of_string (String.split_on_char ',' s)
@@ -121,7 +121,7 @@ let verdicts (text : z list) : string =
   let u = (match unfinished text with Some true -> "unfinished" | Some false -> "finished" | None -> "-") in
   let ((m, d), pend) = scan (text @ [z_of_int 10]) in
   let mname = (match m with MCode -> "Code" | MStr -> "Str" | MStrEsc -> "Str" | MRaw -> "Raw" | MLine -> "Line"
-    | MBlock -> "Block" | MBlockStar -> "Block" | MSlash -> "Slash" | MRune -> "Rune" | MRuneEsc -> "Rune") in
+    | MBlock -> "Block" | MBlockStar -> "Block" | MSlash -> "Slash" | MRune -> "Rune" | MRuneEsc -> "Rune" | MTilde -> "Prefix") in
   let mname = if pend && mname = "Code" then "Prefix" else mname in
   let v = (match tok_verdict (text_tokens text) with
            | Some (fin, _) -> if fin then "fin" else "unf"
@@ -138,7 +138,7 @@ let do_chunk (text : z list) (cuts : int list) : string * string =
   let u = (match unfinished text with Some true -> "unfinished" | Some false -> "finished" | None -> "-") in
   let ((m, d), pend) = scan (text @ [z_of_int 10]) in
   let mname = (match m with MCode -> "Code" | MStr -> "Str" | MStrEsc -> "Str" | MRaw -> "Raw" | MLine -> "Line"
-    | MBlock -> "Block" | MBlockStar -> "Block" | MSlash -> "Slash" | MRune -> "Rune" | MRuneEsc -> "Rune") in
+    | MBlock -> "Block" | MBlockStar -> "Block" | MSlash -> "Slash" | MRune -> "Rune" | MRuneEsc -> "Rune" | MTilde -> "Prefix") in
   let mname = if pend && mname = "Code" then "Prefix" else mname in
   let u = u ^ ":" ^ mname ^ ":" ^ string_of_z d in
   let v = (match tok_verdict (text_tokens text) with
